@@ -2,6 +2,7 @@ package gen
 
 import (
 	"encoding/json"
+	"math"
 	"math/big"
 	"regexp"
 	"strconv"
@@ -81,6 +82,12 @@ func ratText(r *big.Rat) json.Number {
 	n := ratText0(r)
 	if SigDigits(string(n)) > 15 {
 		f, _ := r.Float64()
+		if math.IsInf(f, 0) || math.IsNaN(f) {
+			if r.Sign() < 0 {
+				return json.Number("-1e308")
+			}
+			return json.Number("1e308")
+		}
 		n = json.Number(strconv.FormatFloat(f, 'g', 15, 64))
 	}
 	return n
@@ -147,6 +154,9 @@ func ratText0(r *big.Rat) json.Number {
 		}
 	}
 	f, _ := r.Float64()
+	if math.IsInf(f, 0) || math.IsNaN(f) {
+		return json.Number("1e308")
+	}
 	return json.Number(strconv.FormatFloat(f, 'f', 6, 64))
 }
 
